@@ -302,12 +302,44 @@ func checkC14(w *World, r *Report) {
 		r.Check(acc && retOK && ownOK, "R14.4", "isFeatureValid conjunction", ifd.Pos(), "enabled = featureEnabled(self); for each dependency: enabled = valid(dep) && enabled; return enabled", "the enablement of a feature is not the conjunction of its own setting and of every feature it depends on (e.g. only the last dependency counts)")
 		cif := w.Method("compile", "Compiler", "CheckIfFeature")
 		cfd, _ := w.FuncDecl(cif)
-		vfe := w.Method("compile", "Compiler", "verifiedFeatureEnabled")
-		rets := returnsIn(cfd.Body)
-		okC := len(rets) == 1
-		if okC {
-			ce, isC := rets[0].Results[0].(*ast.CallExpr)
-			okC = isC && calleeOf(p, ce) == vfe
+		// the result, with helpers read through, is `c.verifiedFeatures.Status(name) == ENABLED`
+		okC := false
+		if cf := w.SSAFunc(cif); cf != nil && len(ssaLoops(cf)) == 0 {
+			vf := w.Field("compile", "Compiler", "verifiedFeatures")
+			enabled, _ := pkgConstInt(w, "compile", "ENABLED")
+			fc := NewSym(w).ResultCond(cf, nil)
+			if as := fc.atoms(); len(as) == 1 && fc.k == pcAtomK && as[0].subj != "" && as[0].set.equal(isetOf(enabled)) {
+				if bo, ok := as[0].v.(*ssa.BinOp); ok {
+					for _, side := range []ssa.Value{bo.X, bo.Y} {
+						if call, ok := side.(*ssa.Call); ok && pcCalleeName(call.Common()) != "" && strings.HasSuffix(pcCalleeName(call.Common()), "Status") {
+							// asked of the verified table
+							var recv ssa.Value
+							if call.Call.IsInvoke() {
+								recv = call.Call.Value
+							} else if len(call.Call.Args) > 0 {
+								recv = call.Call.Args[0]
+							}
+							for d := 0; d < 4 && recv != nil; d++ {
+								switch x := recv.(type) {
+								case *ssa.UnOp:
+									recv = x.X
+									continue
+								case *ssa.FieldAddr:
+									if isFieldAddrOf(x, vf) {
+										okC = true
+									}
+								case *ssa.Field:
+									st := x.X.Type().Underlying().(*types.Struct)
+									if st.Field(x.Field) == vf {
+										okC = true
+									}
+								}
+								break
+							}
+						}
+					}
+				}
+			}
 		}
 		r.Check(okC, "R14.4", "CheckIfFeature", cfd.Pos(), "returns the verified (transitive) enablement", "if-feature is evaluated against the raw feature setting, not the verified one that includes dependencies")
 	})
@@ -520,9 +552,9 @@ func checkC20(w *World, r *Report) {
 		eff.AllowDynamic = func(t types.Type) bool { return strings.HasSuffix(t.String(), "compile.SchemaFilter") }
 		sp := w.SSAPkg("compile")
 		for _, n := range []string{"IsConfig", "IsOpd", "IsState", "Include", "Exclude", "IncludeState"} {
-			fn, ok := sp.Members[n].(interface{ String() string })
+			fn, ok := ssaMember(sp, n).(interface{ String() string })
 			_ = fn
-			f := sp.Func(n)
+			f := ssaFuncNamed(sp, n)
 			if f == nil || !ok {
 				r.Fail("R20.3", n, token.NoPos, "function not found")
 				continue
@@ -551,7 +583,7 @@ func checkC20(w *World, r *Report) {
 		sp := w.SSAPkg("schema")
 		takers := map[string]bool{"addToChoices": true, "includeChildrenOf": true, "addToChildrenExcluding": true}
 		for _, t := range []string{"addToChoices", "includeChildrenOf", "addToChildrenExcluding"} {
-			if sp.Func(t) == nil {
+			if ssaFuncNamed(sp, t) == nil {
 				panic(undecided{"schema." + t + " not found"})
 			}
 		}
@@ -564,7 +596,7 @@ func checkC20(w *World, r *Report) {
 							continue
 						}
 						callee := call.Common().StaticCallee()
-						if callee == nil || callee.Pkg != sp || !takers[callee.Name()] {
+						if callee == nil || callee.Pkg != sp || !takers[nm(callee)] {
 							continue
 						}
 						for ai, a := range call.Common().Args {
